@@ -1081,6 +1081,11 @@ class C15Checker(Checker):
 
 def skew_delta(rng, cfg):
     fam = cfg["family"]
+    if fam != "hll" and cfg["width"] != cfg["depth"] and rng.random() < 0.12:
+        # same number of cells, other shape (a check on derived sizes would let it through)
+        return {"width": cfg["depth"], "depth": cfg["width"]}
+    if fam != "hll" and cfg["width"] % 2 == 0 and rng.random() < 0.06:
+        return {"width": cfg["width"] // 2, "depth": cfg["depth"] * 2}
     if fam in CMS:
         opts = ["width", "depth", "type", "type"]
         if fam in LOG:
